@@ -162,7 +162,7 @@ func checkPiecewise(p *Program, r *Report, pk *ssa.Package) {
 	// the call whose two int results decide
 	var bcall *ssa.Call
 	for _, c := range callsIn(pw) {
-		if cc, ok := c.(*ssa.Call); ok && cc.Common().StaticCallee() != nil && cc.Common().Signature().Results().Len() == 2 && InModule(cc.Common().StaticCallee()) {
+		if cc, ok := c.(*ssa.Call); ok && cc.Common().StaticCallee() != nil && InModule(cc.Common().StaticCallee()) && twoIntResults(cc.Common().StaticCallee()) {
 			bcall = cc
 			br = cc.Common().StaticCallee()
 		}
@@ -220,20 +220,12 @@ func checkPiecewise(p *Program, r *Report, pk *ssa.Package) {
 	x := br.Params[0]
 	xs := br.Params[1]
 	loops := findLoops(br)
-	getAt := func(v ssa.Value) (ssa.Value, bool) { // v == xs.Get(idx) → idx[0]
-		c, ok := v.(*ssa.Call)
-		if !ok || (callName(c.Common()) != "Get" && callName(c.Common()) != "Get1") || origin1(recvOf(c.Common())) != ssa.Value(xs) {
+	getAt := func(v ssa.Value) (ssa.Value, bool) { // v == xs.Get(idx) → idx[0], directly or through a reading helper
+		tbl, pos, ok := tableRead(p, v, 0)
+		if !ok || tbl != ssa.Value(xs) {
 			return nil, false
 		}
-		a := callArgs(c.Common())[0]
-		if isIntVec(a.Type()) {
-			vals, _, unk := vecElemAt(nil2eff(p), origin1(a), 0, c)
-			if unk != "" || len(vals) != 1 {
-				return nil, false
-			}
-			return vals[0], true
-		}
-		return a, true
+		return pos, true
 	}
 	okBr := true
 	nPos := 0
@@ -442,7 +434,15 @@ func keysOf(m map[string]bool) []string {
 func checkCandidateGuards(p *Program, r *Report, fr *ssa.Function) {
 	r.Rule("R18.4", "admission tests reject not-a-number: in FindRoot, a value appended to the trial points inside a block guarded by ordered comparisons (<, <=, >, >=) of that very value is guarded by their true edges only — a false edge of an ordered comparison also holds for NaN, and a NaN trial is an evaluation outside the interval")
 	n := 0
+	// FindRoot itself and the helpers of its package it calls (`trialPoints(fn_dx, x, …) []float64`)
+	var sites []ssa.CallInstruction
+	sites = append(sites, callsIn(fr)...)
 	for _, c := range callsIn(fr) {
+		if h := c.Common().StaticCallee(); h != nil && h.Blocks != nil && fnPkg(h) == fnPkg(fr) && h != fr {
+			sites = append(sites, callsIn(h)...)
+		}
+	}
+	for _, c := range sites {
 		bi, ok := c.Common().Value.(*ssa.Builtin)
 		if !ok || bi.Name() != "append" || len(c.Common().Args) != 2 {
 			continue
